@@ -1359,6 +1359,9 @@ class SX:
                             piece = v.unit.lit if v.unit.lit is not None else f'<{v.unit.sym}>'
                         elif isinstance(v, Unk):
                             piece = f'<{v.text}>'
+                        elif isinstance(v, N) and v.term.is_const() and v.term.const_value().denominator == 1 and v.py == 'int' \
+                                and part.format_spec is None and part.conversion == -1:
+                            piece = str(int(v.term.const_value()))
                         else:
                             return [(st, Unk('<f-string>'))]
                         nxt.append((r[0], text + piece))
@@ -1569,9 +1572,68 @@ class SX:
                     d[ks[0][1].s] = vs[0][1]
                 if ok:
                     return [(s0, Dv(d))]
+        if isinstance(n, ast.DictComp) and self.eval_comprehensions and len(n.generators) == 1:
+            got = self._dict_comprehension(n, st, frame)
+            if got is not None:
+                return got
         if isinstance(n, (ast.ListComp, ast.GeneratorExp, ast.Dict, ast.Lambda, ast.DictComp, ast.SetComp, ast.Set)):
             return [(st, Unk(ast.unparse(n)[:80]))]
         raise CannotDecide(f'expression kind {type(n).__name__}: {ast.unparse(n)[:60]}')
+
+    def _dict_comprehension(self, n, st, frame):
+        """{k: v for x in <concrete list>}: the (key, value) pairs are the list comprehension with the same generator; keys are text
+        (templates with <...> for unknown pieces).  Two keys that are not provably different may be the same key at run time - the later
+        entry then replaces the earlier one - so the evaluation forks: every such pair distinct / every such group collapsed."""
+        pairs = ast.copy_location(ast.ListComp(elt=ast.Tuple(elts=[n.key, n.value], ctx=ast.Load()), generators=n.generators), n)
+        ast.fix_missing_locations(pairs)
+        try:
+            rs = self.comprehension(pairs, st, frame)
+        except CannotDecide:
+            return None
+        res = []
+        for r in rs:
+            if isinstance(r, Outcome):
+                res.append(r)
+                continue
+            s0, tv = r
+            if not isinstance(tv, Tv) or not all(isinstance(i, Tv) and len(i.items) == 2 for i in tv.items):
+                return None
+            keys = []
+            for i in tv.items:
+                k = i.items[0]
+                if isinstance(k, Sv):
+                    keys.append(k.s)
+                elif isinstance(k, Unk):
+                    keys.append(f'<{k.text}>')
+                else:
+                    return None
+
+            def apart(a, b):
+                if '<' not in a and '<' not in b:
+                    return a != b
+                pa, pb = a.split('<')[0], b.split('<')[0]
+                return not (pa.startswith(pb) or pb.startswith(pa))
+            maybe = any(keys[i] != keys[j] and not apart(keys[i], keys[j]) for i in range(len(keys)) for j in range(i))
+            d = {}
+            for k, i in zip(keys, tv.items):
+                d[k] = i.items[1]
+            res.append((s0, Dv(d)))
+            if maybe:
+                # the same evaluation with every group of possibly-equal keys collapsed into one entry (first position, last value)
+                groups = []
+                for k in keys:
+                    for g_ in groups:
+                        if any(k == x or not apart(k, x) for x in g_):
+                            g_.append(k)
+                            break
+                    else:
+                        groups.append([k])
+                d2 = {}
+                for k, i in zip(keys, tv.items):
+                    rep_ = next(g_[0] for g_ in groups if k in g_)
+                    d2[rep_] = i.items[1]
+                res.append((s0.copy(), Dv(d2)))
+        return res
 
     def comprehension(self, n, st, frame) -> list:
         """[elt for x in it if c]: unrolled over a concrete list; mapped over the generic element of an
@@ -3001,6 +3063,10 @@ class SX:
         if name == 'bool' and len(args) == 1:
             t = self.truth(args[0])
             return [(st, Bv(t) if isinstance(t, bool) else Bsym(t))]
+        if name == 'len' and len(args) == 1 and isinstance(args[0], Dv) and self.eval_comprehensions:
+            return [(st, N(Rat.const(len(args[0].items)), 'int'))]
+        if name in ('list', 'tuple', 'iter') and len(args) == 1 and isinstance(args[0], Dv) and self.eval_comprehensions:
+            return [(st, Tv([Sv(k) for k in args[0].items], 'tuple' if name == 'tuple' else 'list'))]
         if name == 'len' and len(args) == 1:
             return [(st, N(Rat.atom(f'len({self.show(args[0])})'), 'int'))]
         if name == 'type' and len(args) == 1 and isinstance(args[0], Q):
